@@ -7,6 +7,7 @@
    the chains themselves (user code, any operators) and the world are universally quantified. *)
 From Coq Require Import List ZArith Lia.
 From Join Require Import Tok Names Ast Comp Std Denote Spec Leaves SpecProps.
+From Join Require ThreadsProps.
 From Join Require RefineCorollaries.
 From Join Require Ir Gen RefineBase RefineChain RefineProg RefineTop.
 
@@ -96,3 +97,27 @@ Theorem generated_join_result_positions :
     (SpecProps.ResultOK sp T).
 Proof. exact (@RefineCorollaries.den_gen_result_positions). Qed.
 Print Assumptions generated_join_result_positions.
+
+(* OBLIGATION thread_step_delivers_results_in_branch_order *)
+(* thread kinds (every world, EVERY schedule): when the caller is past the spawn-all/join-all block, ALL n children have finished and the continuation runs on the list rs of their outcomes IN SPAWN (= branch) ORDER: position i of the step result is the outcome of the thread that ran the i-th active branch *)
+Theorem thread_step_delivers_results_in_branch_order :
+  forall (wstate : Type)
+    (handle : option String.string -> Comp.ev -> wstate -> option Comp.val * wstate)
+    (names : list String.string) (ts : list (Comp.comp Comp.val))
+    (K : list (option Comp.val) -> Comp.comp Comp.val) (s0 : Threads.state wstate) 
+    (c : nat),
+  Datatypes.length names = Datatypes.length ts ->
+  ThreadsProps.ccode wstate c s0 (ThreadsProps.block names ts K) ->
+  forall sched : list nat,
+  let s := Threads.run_thr handle sched s0 in
+  (exists th : Threads.thread,
+     ThreadsProps.thr_of wstate s c = Some th /\
+     ThreadsProps.quiet wstate s0 c s /\
+     ((exists (n : String.string) (t : Comp.comp Comp.val) (k : nat -> Comp.comp Comp.val),
+         Threads.th_code th = Comp.Spawn n t k) \/
+      (exists (h : nat) (k : option Comp.val -> Comp.comp Comp.val), Threads.th_code th = Comp.Join h k))) \/
+  (exists (hs : list nat) (rs : list (option Comp.val)) (th : Threads.thread),
+     ThreadsProps.all_children_finished wstate names ts s0 c s hs rs /\
+     ThreadsProps.thr_of wstate s c = Some th /\ ThreadsProps.cdesc (K rs) (Threads.th_code th)).
+Proof. exact (@ThreadsProps.block_barrier). Qed.
+Print Assumptions thread_step_delivers_results_in_branch_order.
